@@ -63,10 +63,12 @@ def layout(defs, nfiles, f0, slot, q, ty, univ):
             for d in g:
                 hdr = line
                 line += 1
-                flds = []
+                line += d.get("pre", 0)        # remark lines (no annotation) below the header: left unassigned,
+                flds = []                      # the Go leg fills every gap of a block with remark lines
                 for (fn, ft) in d.get("fields", []):
                     flds.append((fn, line, ft))
                     line += 1
+                line += d.get("post", 0)       # remark lines below the last field (they may END the block)
                 recs.append((d, hdr, flds))
             last = line - 1
             line += 1                          # blank line ends the block
@@ -102,10 +104,20 @@ def parse_case(case):
                         a, rest = f.split("@")
                         ln, t = rest.split("~")
                         d["fields"].append((int(a), t))
+                        d.setdefault("flines", []).append(int(ln))
             else:
                 d["ty"] = p[4]
             recs.append(d)
     recs.sort(key=lambda d: (d["file"], d["hdr"]))
+    for i, d in enumerate(recs):                   # remark gaps (layout's pre / post)
+        fl = d.pop("flines", [])
+        d["pre"] = (fl[0] - d["hdr"] - 1) if fl else 0
+        used = fl[-1] if fl else d["hdr"]
+        nxt = recs[i + 1] if i + 1 < len(recs) else None
+        if nxt is not None and nxt["file"] == d["file"] and nxt["last"] == d["last"]:
+            d["post"] = max(0, nxt["hdr"] - used - 1)
+        else:
+            d["post"] = max(0, d["last"] - used)
     prev = None
     slot = 0
     for d in recs:
@@ -367,6 +379,15 @@ def shapes():
     # `any` as a class / parent, undeclared names
     add([C(ANY, [], [F]), C(T, [ANY, T + 5], [F + 1])], n(T))
     add([C(ANY, [], [F])], n(ANY))
+    # remark lines between the last annotation line and the declaration, inside and at the end of blocks
+    leaf = [C(T, [T + 1], [F]), C(T + 1, [], [F + 1])]
+    add(leaf, n(T), q="MIKDR")
+    add(leaf, n(T), q="MIKDS")
+    add(leaf, n(T) + "[]", q="MIKDFR")
+    add(leaf, "t<n3," + n(T) + ">", q="MIKDPS")
+    add([dict(C(T, [T + 1], [F]), pre=1, post=1), dict(C(T + 1, [], [F + 1, F + 2]), pre=2)], n(T), q="MIKDF")
+    add([dict(C(T, [T + 1], [F]), post=2), dict(C(T + 1, [], [F + 1], glue=True), post=1), dict(A(T + 2, n(T)), post=1)],
+        n(T + 2), q="MIKDRF")
     # cyclic aliases: members are fine, indexing recurses for ever (C15_elem_type_refuted)
     cyc = [A(T, n(T + 1)), A(T + 1, n(T))]
     add(cyc, n(T), q="M")
@@ -395,6 +416,19 @@ def gen_members(rng, tier):
         r = rng.random()
         q = "MIKD" if r < 0.5 else ("MIKDF" if r < 0.75 else ("MIKDP" if r < 0.9 else
                                                               rng.choice(["M", "MI", "MK", "MD", "P", "F", "MDPF"])))
+        # remark lines (`-- text`, `-- luacheck: ignore`, unknown `---@tag`): R / S = between the ---@type line and
+        # the declaration of v / d; pre / post = inside and at the end of the definition blocks
+        r = rng.random()
+        if r < 0.15:
+            q += "R"
+        elif r < 0.3:
+            q += "S"
+        if rng.random() < 0.3:
+            for d in defs:
+                if rng.random() < 0.3:
+                    d["pre"] = rng.choice([0, 1, 1, 2])
+                if rng.random() < 0.3:
+                    d["post"] = rng.choice([0, 1, 1, 2])
         out.append(layout(defs, nf, f0, slot, q, ty, univ))
         if has_alias_cycle_risk(defs) and rng.random() < 0.5:
             # the same workspace asked for plain members only: must answer even when indexing would overflow
@@ -436,7 +470,13 @@ def shrink_members(case):
                 ds = [dict(x) for x in defs]
                 ds[i]["ty"] = "|".join(parts[:j] + parts[j + 1:])
                 yield emit(ds)
-    for qq in ("M", "I", "K", "D", "P", "F"):                   # fewer queries
+    for i, d in enumerate(defs):                                # drop remark lines
+        for key in ("pre", "post"):
+            if d.get(key):
+                ds = [dict(x) for x in defs]
+                ds[i][key] = 0
+                yield emit(ds)
+    for qq in ("M", "I", "K", "D", "P", "F", "R", "S"):         # fewer queries
         if qq in q and len(q) > 1:
             yield emit(defs, qq=q.replace(qq, ""))
     if len(univ) > 1:
